@@ -26,7 +26,7 @@ ASSUMPTIONS = [
 AGGS = ["count", "sum", "min", "max", "avg", "var_pop", "var_samp", "stddev_pop", "stddev_samp"]
 AGG_SPELL = {"stddev_pop": ["stddev_pop", "stddev", "std"], "var_pop": ["var_pop", "variance"]}
 # "an aggregate may wrap a scalar expression": integer-valued arithmetic, values below zero included
-INNER = ["size", "size", "hardlinks", "uid", "length(name)", "size - 100", "length(name) - 6", "size * 2", "-size", "line_count"]
+INNER = ["size", "size", "hardlinks", "uid", "length(name)", "size - 100", "length(name) - 6", "size * 2", "-size", "size * size", "line_count"]
 
 
 def examples(tier):
